@@ -7,8 +7,9 @@ Local Open Scope nat_scope.
 
 Section NotifyProof.
 Variable reopen : bool.
+Variable repaired : bool.       (* true: the delete handler after the repair; false: as found *)
 Variable pre : bytes.
-Notation nstep := (nstep reopen true).
+Notation nstep := (nstep reopen repaired).
 
 Record NInv (s : nstate) : Prop := mkNInv {
   iV : valid_fd (nenv s) (nfd s);
@@ -71,9 +72,13 @@ Proof.
   - intros He. destruct (E He) as [E1 E2]. split; [exact E1|]. apply (past_grows _ _ _ H), E2.
 Qed.
 
-Lemma ninv_step s l s' : NInv s -> nok pre s l -> nstep s l s' -> NInv s'.
+(* [Hstale]: the only place where the repair matters — without it the delete signal must not be taken while
+   the descriptor is the file at the path *)
+Lemma ninv_step s l s' : NInv s -> nok pre s l ->
+  (repaired = false -> npcs s = NSelect -> sigD s = true -> fd_current (nenv s) (nfd s) = false) ->
+  nstep s l s' -> NInv s'.
 Proof.
-  intros I Ok St. inversion St; subst.
+  intros I Ok Hstale St. inversion St; subst.
   - eapply ninv_env; eauto.
   - eapply ninv_env; eauto. right. eauto.
   - (* watcher *)
@@ -112,15 +117,17 @@ Proof.
     + intros F. destruct (nfd s) as [[i1 off1]|] eqn:F1; [discriminate|]. apply N. reflexivity.
     + intros Hr Hp _. apply R; auto. congruence.
   - (* delete signal, re-open *)
-    destruct I as [V P N G D R W E]. cbn [andb] in *. constructor; cbn [nenv nfd npcs sigW sigD queue ndel]; auto; try congruence.
-    + destruct (fd_current (nenv s) (nfd s)); [exact V|exact Logic.I].
-    + intros i off F. destruct (fd_current (nenv s) (nfd s)); [apply P; exact F|discriminate].
+    destruct I as [V P N G D R W E]. constructor; cbn [nenv nfd npcs sigW sigD queue ndel]; auto; try congruence.
+    + destruct (repaired && fd_current (nenv s) (nfd s)); [exact V|exact Logic.I].
+    + intros i off F. destruct (repaired && fd_current (nenv s) (nfd s)); [apply P; exact F|discriminate].
     + destruct (nfd s) as [[i off]|] eqn:F1; [|intros _; apply N; reflexivity].
-      destruct (fd_current (nenv s) (Some (i, off))) eqn:Fc; [intros X; discriminate|intros _].
+      destruct (repaired && fd_current (nenv s) (Some (i, off))) eqn:Fc; [intros X; discriminate|intros _].
+      assert (fd_current (nenv s) (Some (i, off)) = false) as Fc'.
+      { apply andb_false_iff in Fc as [Fc|Fc]; [|exact Fc]. apply Hstale; auto. }
       destruct V as [[V|[V Vp]] _].
       * destruct G as [r G]. rewrite (P i off eq_refl) in *. rewrite content_past in * by exact V.
         apply (past_full _ _ _ _ V G).
-      * exfalso. cbn in Fc. rewrite Vp, V in Fc. unfold ino in Fc. rewrite Nat.eqb_refl in Fc. discriminate.
+      * exfalso. cbn in Fc'. rewrite Vp, V in Fc'. unfold ino in Fc'. rewrite Nat.eqb_refl in Fc'. discriminate.
   - (* delete signal, plain follow: the stream ends *)
     destruct I as [V P N G D R W E]. constructor; cbn [nenv nfd npcs sigW sigD queue ndel]; auto; try congruence.
 Qed.
@@ -162,6 +169,8 @@ Variable tail : bool.
 Let pre := pre_of c0 tail.
 Notation nstep := (nstep reopen true).
 Notation NInv := (NInv reopen pre).
+Lemma stale_triv s : true = false -> npcs s = NSelect -> sigD s = true -> fd_current (nenv s) (nfd s) = false.
+Proof. discriminate. Qed.
 Notation nrun := (run nstep (nok pre) (ninit c0 tail)).
 
 Lemma ninv_init : NInv (ninit c0 tail).
@@ -176,7 +185,7 @@ Proof.
 Qed.
 
 Lemma ninv_run_from s0 tr s : NInv s0 -> run nstep (nok pre) s0 tr s -> NInv s.
-Proof. intros I R. induction R as [|s0 tr s1 l s2 R IH Ok St]; [exact I|]. eapply ninv_step; [apply IH, I|exact Ok|exact St]. Qed.
+Proof. intros I R. induction R as [|s0 tr s1 l s2 R IH Ok St]; [exact I|]. eapply ninv_step; [apply IH, I|exact Ok|apply stale_triv|exact St]. Qed.
 Lemma ninv_run tr s : nrun tr s -> NInv s.
 Proof. apply ninv_run_from, ninv_init. Qed.
 
@@ -191,7 +200,7 @@ Qed.
 
 Lemma nabs_step s l s' : NInv s -> nok pre s l -> nstep s l s' -> spec_step reopen (nabs pre s) l = Some (nabs pre s').
 Proof.
-  intros I Ok St. pose proof (ninv_step _ _ _ _ _ I Ok St) as I'.
+  intros I Ok St. pose proof (ninv_step _ _ _ _ _ _ I Ok (stale_triv s) St) as I'.
   destruct (ninv_prefix _ I) as [rest A]. destruct (ninv_prefix _ I') as [rest' A'].
   inversion St; subst; unfold nabs in *; cbn [nenv nfd npcs sigW sigD queue ndel] in *.
   - eapply spec_env; eauto. intros ->. exact Ok.
